@@ -48,6 +48,10 @@ def gen_case(pid, op, seed, index):
         m = min([g.dur(c) for c in t[3:]], default=0)
         pool = [x for x in pool if x <= m] or [0]
     start = rng.choice(pool)
+    # zero-length children sitting exactly at the insertion point (interior boundaries) are a classic blind spot
+    zs = [a for (a, b) in g.leaf_intervals(t) if a == b and 0 < a < d]
+    if zs and rng.random() < 0.3:
+        start = rng.choice(zs)
     if 0.04 <= r < 0.09:
         start = rng.choice([-1, -G.unit])
     elif 0.09 <= r < 0.14:
